@@ -9,7 +9,9 @@
 (* Layer A contributes one bit per document: Parse(buf).ok.                *)
 (***************************************************************************)
 EXTENDS Integers, Sequences, FiniteSets, TLC
-CONSTANTS K, MaxD, Sigma, Names, Roots, HistK, EmitOn
+CONSTANTS K, MaxD, Sigma, Names, Roots, HistK, EmitOn,
+          Stems     \* byte strings (starting with the root token) that the builder may start from instead of the bare root:
+                    \* deep nestings that K tokens could never reach, continued with K arbitrary tokens
 
 PI == INSTANCE ParserImpl
 F  == INSTANCE BinsonFormat
@@ -21,7 +23,8 @@ vars == <<phase, buf, n, P, stk, on, allOk, ref, path, hist>>
 View == <<phase, buf, n, P, stk, on, allOk, hist>>
 Push(h, tok) == IF HistK = 0 THEN <<>> ELSE LET a == Append(h, tok) IN IF Len(a) > HistK THEN SubSeq(a, Len(a) - HistK + 1, Len(a)) ELSE a
 
-Init == /\ phase = "build" /\ \E r \in Roots : buf = <<IF r = "O" THEN 64 ELSE 66>>
+Init == /\ phase = "build" /\ (\/ \E r \in Roots : buf = <<IF r = "O" THEN 64 ELSE 66>>
+                            \/ buf \in Stems)
         /\ n = 0 /\ P = PI!BlankP(MaxD) /\ stk = <<>> /\ on = "none" /\ allOk = TRUE /\ ref = FALSE /\ path = "" /\ hist = <<>>
 
 Add == /\ phase = "build" /\ n < K
@@ -97,4 +100,14 @@ SigmaT == << <<20, 1, 97>>, <<20, 1, 98>>, <<20, 1, 99>>, <<16, 5>>, <<65>>, <<6
 NamesS == {<<97>>, <<98>>, <<>>, <<99>>}
 RootsOA == {"O", "A"}
 RootsO == {"O"}
+RootsNone == {}
+NoStems == {}
+\* deep stems: below a root object, every nesting path of 3 or 4 containers (object members are named "a"),
+\* with the innermost 0..all of them closed again
+StemPaths == UNION {[1..L -> {"O", "A"}] : L \in 3..4}
+OpenBytes(p) == F!Flatten([i \in 1..Len(p) |-> (IF (IF i = 1 THEN "O" ELSE p[i - 1]) = "O" THEN <<20, 1, 97>> ELSE <<>>)
+                                                \o <<IF p[i] = "O" THEN 64 ELSE 66>>])
+CloseBytes(p, j) == [k \in 1..j |-> IF p[Len(p) - k + 1] = "O" THEN 65 ELSE 67]
+DeepStems == UNION {{<<64>> \o OpenBytes(p) \o CloseBytes(p, j) : j \in 0..Len(p)} : p \in StemPaths}
+SigmaD == << <<65>>, <<67>>, <<16, 5>>, <<20, 1, 98>> >>
 =============================================================================
